@@ -37,7 +37,8 @@ MANIFEST = dict(
 )
 REQUIRED = ["Xmp.Fmt.C19_roundtrip_mod", "Xmp.Fmt.C19_mod_period_roundtrip", "Xmp.Fmt.C19_mod_adpcm_hypothesis_needed",
             "Xmp.Fmt.C19_s3m_pattern_codec", "Xmp.Fmt.C19_s3m_note_codec", "Xmp.Fmt.C19_xm_cell_codec",
-            "Xmp.Fmt.C19_xm_cells_codec", "Xmp.Fmt.C19_it_field_codecs_partial", "Xmp.Fmt.C19_pcm_sign8_involutive"]
+            "Xmp.Fmt.C19_xm_cells_codec", "Xmp.Fmt.C19_it_field_codecs_partial", "Xmp.Fmt.C19_pcm_sign8_involutive", "Xmp.Fmt.C19_pcm_sign16_involutive",
+            "Xmp.Fmt.C19_pcm_delta8", "Xmp.Fmt.C19_pcm_delta16"]
 
 TYPE_PREFIX = {"mod": None, "s3m": " S3M", "xm": " XM ", "it": " IT "}
 
@@ -322,18 +323,30 @@ def run(ck):
 
 
 def replay(ck, rp):
+    """Re-run the recorded file on the real loader and compare with the recorded abstract song."""
     exe = vlib.build_harness("c19_roundtrip", ["c19_roundtrip.c"])
     r = rp["replay"]
+    if not isinstance(r, dict) or "hex" not in r:
+        print("replay file names a broken theorem/correspondence, not an input: %s" % str(r)[:1500])
+        return 1
     rc, out, err = run_proc([exe], "hex replay %s\n" % (r.get("hex") or "-"))
-    print(out[:3000])
-    print(err[-2000:])
     print("recorded: fmt=%s opts=%s diff=%s" % (r.get("fmt"), r.get("opts"), r.get("diff")))
-    bad = rc != 0 or "loadfail" in out
-    if not bad and r.get("expected_dump"):
-        _, rbody = strip_meta(parse_blocks(out)[0][1])
-        bad = first_diff(canon(r["fmt"], r["expected_dump"]), canon(r["fmt"], rbody))[0] is not None
-    elif not bad and r.get("diff"):
-        bad = True
-    if bad:
+    verdict = None
+    if rc != 0:
+        verdict = "harness aborted: " + vlib.sanitizer_signature(err)
+        print(err[-2000:])
+    else:
+        blocks = parse_blocks(out)
+        _, rbody = strip_meta(blocks[0][1]) if blocks else ({}, ["loadfail ?"])
+        if rbody and rbody[0].startswith("loadfail"):
+            verdict = "the real loader refuses the file: " + rbody[0]
+        elif r.get("expected_dump"):
+            d, _ = first_diff(canon(r["fmt"], r["expected_dump"]), canon(r["fmt"], rbody))
+            if d:
+                verdict = "loaded module differs from the abstract song: " + d
+    if verdict:
+        print("replay: property FAILS on this input: " + verdict)
         print("VIOLATION property=C19 replay=(this file)")
-    return 1 if bad else 0
+        return 1
+    print("replay: the real loader now reproduces the recorded abstract song")
+    return 0
